@@ -440,17 +440,22 @@ impl Serialize for dyn Rule {
         let properties = self.serialize_to_properties();
         let property_count = properties.len();
         let rule_name = self.get_name();
+        let metadata = self.metadata();
+        let has_apply_to_filters = !metadata.apply_to_filters.is_empty();
+        let has_skip_filters = !metadata.skip_filters.is_empty();
 
-        if property_count == 0 {
+        if property_count == 0 && !has_apply_to_filters && !has_skip_filters {
             serializer.serialize_str(rule_name)
         } else {
-            let mut map = serializer.serialize_map(Some(property_count + 1))?;
+            let entry_count = property_count
+                + 1
+                + usize::from(has_apply_to_filters)
+                + usize::from(has_skip_filters);
+            let mut map = serializer.serialize_map(Some(entry_count))?;
 
             map.serialize_entry("rule", rule_name)?;
 
-            let metadata = self.metadata();
-
-            if !metadata.apply_to_filters.is_empty() {
+            if has_apply_to_filters {
                 let filters = metadata
                     .apply_to_filters
                     .iter()
@@ -464,7 +469,7 @@ impl Serialize for dyn Rule {
                 }
             }
 
-            if !metadata.apply_to_filters.is_empty() {
+            if has_skip_filters {
                 let filters = metadata
                     .skip_filters
                     .iter()
